@@ -90,6 +90,20 @@ type MainFinal struct {
 	ArchLinks int64            `json:"arch_links"`
 	Zombies   int              `json:"zombies"` // DB objects that hold a SQLite handle after every Close returned
 	Objects   int              `json:"objects"`
+	Acks      []AckObs         `json:"acks,omitempty"` // acknowledgements observed while the writers were running
+}
+
+// AckObs is one acknowledged replication round (SyncAndWait / Store.SyncDB(wait) /
+// POST /sync wait returned success) observed while the application kept writing.
+// K0 is the ledger value of the last application commit that had RETURNED before
+// the call was issued; Seq is the archive's publication counter read right after the
+// call returned (every file the acknowledgement can rely on was published, and
+// therefore archived, before that).
+type AckObs struct {
+	Op  string `json:"op"`
+	K0  int64  `json:"k0"`
+	Seq int64  `json:"seq"`
+	T1  int64  `json:"t1"`
 }
 
 type ProbeResult struct {
@@ -158,6 +172,26 @@ type mainDB struct {
 	objs   []*litestream.DB
 
 	commits, rollbacks, busy atomic.Int64
+
+	lastK atomic.Int64 // highest ledger value whose Commit has returned
+	ackMu sync.Mutex
+	acks  []AckObs
+}
+
+// ackCall issues one acknowledging call and, when it reports success, records what
+// the acknowledgement promised (see AckObs).
+func (c *child) ackCall(g *gctx, op string, m *mainDB, fn func() error) error {
+	k0 := m.lastK.Load()
+	err := c.call(g, op, m.name, fn)
+	if err == nil {
+		o := AckObs{Op: op, K0: k0, Seq: m.arch.seq.Load(), T1: c.now()}
+		m.ackMu.Lock()
+		if len(m.acks) < 4000 {
+			m.acks = append(m.acks, o)
+		}
+		m.ackMu.Unlock()
+	}
+	return err
 }
 
 type sideDB struct {
@@ -755,6 +789,12 @@ func (c *child) writer(w int, m *mainDB) {
 		m.hashes[k] = hash
 		m.hmu.Unlock()
 		m.commits.Add(1)
+		for {
+			cur := m.lastK.Load()
+			if k <= cur || m.lastK.CompareAndSwap(cur, k) {
+				break
+			}
+		}
 		if rng.Intn(3) == 0 {
 			time.Sleep(time.Duration(rng.Intn(4000)) * time.Microsecond)
 		}
@@ -1021,6 +1061,9 @@ func (c *child) run(fin *Final) {
 		m.hmu.Unlock()
 		mf.Commits, mf.Rollbacks, mf.Busy = m.commits.Load(), m.rollbacks.Load(), m.busy.Load()
 		mf.ArchMiss, mf.ArchLinks = m.arch.missed.Load(), m.arch.linked.Load()
+		m.ackMu.Lock()
+		mf.Acks = m.acks
+		m.ackMu.Unlock()
 	}
 	fin.Mains = finals
 	// application connections go away, then nothing of ours or litestream's may be left
@@ -1147,7 +1190,7 @@ func (c *child) opTable() []opDef {
 		{"SyncAndWait", 4, onOpen("SyncAndWait", func(g *gctx, m *mainDB, d *litestream.DB) {
 			ctx, cancel := ctxT(t5)
 			defer cancel()
-			c.call(g, "SyncAndWait", m.name, func() error { return d.SyncAndWait(ctx) })
+			c.ackCall(g, "SyncAndWait", m, func() error { return d.SyncAndWait(ctx) })
 		})},
 		{"Checkpoint", 6, onOpen("Checkpoint", func(g *gctx, m *mainDB, d *litestream.DB) {
 			mode := []string{litestream.CheckpointModePassive, litestream.CheckpointModeTruncate, litestream.CheckpointModeRestart}[g.rng.Intn(3)]
@@ -1256,6 +1299,10 @@ func (c *child) opTable() []opDef {
 			wait := g.rng.Intn(2) == 0
 			ctx, cancel := ctxT(t5)
 			defer cancel()
+			if wait {
+				c.ackCall(g, "Store.SyncDB-wait=true", m, func() error { _, err := c.st.SyncDB(ctx, m.path, true); return err })
+				return
+			}
 			c.call(g, fmt.Sprintf("Store.SyncDB-wait=%v", wait), m.name, func() error { _, err := c.st.SyncDB(ctx, m.path, wait); return err })
 		}},
 		{"EnableDB", 4, func(g *gctx) {
@@ -1437,6 +1484,16 @@ func (c *child) opHTTP(g *gctx) {
 	switch g.rng.Intn(11) {
 	case 0, 1:
 		wait := g.rng.Intn(2) == 0
+		if wait {
+			for _, m := range c.mains {
+				if m.path == t.path {
+					c.ackCall(g, "POST /sync wait=true", m, func() error {
+						return httpErr(c.post("/sync", litestream.SyncRequest{Path: t.path, Wait: true, Timeout: 20}))
+					})
+					return
+				}
+			}
+		}
 		c.call(g, fmt.Sprintf("POST /sync wait=%v", wait), t.name, func() error {
 			return httpErr(c.post("/sync", litestream.SyncRequest{Path: t.path, Wait: wait, Timeout: 20}))
 		})
